@@ -27,8 +27,8 @@ ASSUMPTIONS = [
     "content edits keep the length (in-place item / same-length slice assignment) or replace the contents by bytes / bytearray no longer than size",
 ]
 REQUIRED_TAGS = {
-    "quick": ["shrink-below-stored", "block-beyond-stored", "ctor-invalid", "op:saveload"],
-    "thorough": ["shrink-below-stored", "block-beyond-stored", "ctor-invalid", "op:saveload"],
+    "quick": ["isize-above-size", "shrink-below-stored", "block-beyond-stored", "ctor-invalid", "op:saveload"],
+    "thorough": ["isize-above-size", "shrink-below-stored", "block-beyond-stored", "ctor-invalid", "op:saveload"],
 }
 
 NBLOCKS = 4
